@@ -10,6 +10,10 @@ Tie: real predict() (all retained columns) vs the compiled model at Float on gen
 Input families: 'library' (single-column comparisons in library order) and 'free' (custom comparisons: levels in arbitrary
 order, null levels anywhere / several, overlapping and multi-column conditions under SQL three-valued logic); settings built
 four ways, retain flags, predict() flags, object reuse; waterfall records of every returned pair checked by the oracle.
+SQL level (harness/props/c02_sql.py): the three scoring statements (gamma ladder, Bayes-factor ladder, product / match_probability,
+threshold) are regenerated as Rel terms for marker models without TF adjustments (Generated/ScoreSql.lean, tied by rfl to the generic form
+Model/ScoreSql.lean), Properties/C02Sql.lean proves first-TRUE-level / assigned factor / B/(1+B) in exact rationals / infinity branch /
+threshold-by-weight / refinement of Model/Score at Q under Rel.eval, and the pipeline is evaluated on the TF-free, threshold-free cases against the engine.
 """
 from __future__ import annotations
 
